@@ -76,6 +76,8 @@ impl<'s, W: FmtWrite> Stringifier<'s, W> {
     }
 
     fn write_str(&mut self, s: &str) -> FmtResult {
+        #[cfg(feature = "verif-hooks")]
+        crate::verif::emit(crate::verif::Event::PrintStep { len: s.len() });
         self.w.write_str(s)?;
         let line_wrap_count = s.as_bytes().into_iter().filter(|x| **x == b'\n').count();
         self.line += line_wrap_count as u32;
